@@ -272,13 +272,13 @@ func dbgProgram(p *dbgPlan) (string, bool) {
 			}
 		case "sinks":
 			sinks = true
-			b.WriteString("total := 0\n")
+			b.WriteString("total := 0\ngm := {\"n\": 0}\n")
 			b.WriteString("sink starter\n    kindmatch [\"c15.start\"]\n{\n")
 			for e := 0; e < 1+c%3; e++ {
 				fmt.Fprintf(&b, "    addEvent(\"w%d\", \"c15.work\", {\"v\": %d})\n", e, e+1)
 			}
 			b.WriteString("}\n")
-			b.WriteString("sink worker\n    kindmatch [\"c15.work\"]\n{\n    let v := inc(event.state.v)\n    log(\"work \", v)\n    mutex m {\n        total := total + v\n    }\n}\n")
+			b.WriteString("sink worker\n    kindmatch [\"c15.work\"]\n{\n    let v := inc(event.state.v)\n    log(\"work \", v)\n    mutex m {\n        total := total + v\n        gm.n := gm.n + v\n        gm[v] := [v, {\"w\": v}]\n    }\n}\n")
 			b.WriteString("errs := addEventAndWait(\"go\", \"c15.start\", {})\nlog(\"total=\", total, \" errs=\", errs)\n")
 		}
 	}
